@@ -3,6 +3,7 @@ import PpciVerif.Gen.WasmOpcodes
 import PpciVerif.Spec.Leb
 import PpciVerif.Proofs.WasmBinModule
 import PpciVerif.Proofs.WasmBinCanon3
+import PpciVerif.Model.WatIds
 /-!
 # C21 — WebAssembly modules round-trip through the binary form
 
@@ -221,5 +222,66 @@ example : argOk G .f32 (.raw [0x00, 0x00, 0xC0, 0x7F]) = true := by decide +kern
     a padded section size (`81 00` for 1) -/
 example : Canon G (header ++ [1, 0x81, 0x00, 0x00]) = false ∧
     readModule G false (header ++ [1, 0x81, 0x00, 0x00]) = .ok [] := by decide +kernel
+
+/-! ### text form: the id-assignment rule of the WAT parser (the only part of the text layer that is modelled) -/
+
+section WatIds
+open Model.WatIds
+
+/-- a generated id `$n` is the index of its definition -/
+theorem wat_auto_id_is_index : ∀ (names : List (Option Id)) (c i : Nat),
+    names[i]? = some none → (assign c names)[i]? = some (.num (c + i))
+  | [], _, i, h => by simp at h
+  | none :: r, c, 0, _ => by simp [assign]
+  | some x :: r, c, 0, h => by simp at h
+  | none :: r, c, i + 1, h => by
+    have := wat_auto_id_is_index r (c + 1) i (by simpa using h)
+    simpa [assign, Nat.add_assoc, Nat.add_comm 1 i] using this
+  | some x :: r, c, i + 1, h => by
+    have := wat_auto_id_is_index r (c + 1) i (by simpa using h)
+    simpa [assign, Nat.add_assoc, Nat.add_comm 1 i] using this
+
+theorem wat_assign_getElem : ∀ (names : List (Option Id)) (c i : Nat) (x : Id),
+    (assign c names)[i]? = some x → names[i]? = some (some x) ∨ (names[i]? = some none ∧ x = .num (c + i))
+  | [], _, i, x, h => by simp [assign] at h
+  | none :: r, c, 0, x, h => by simp [assign] at h; simp [h]
+  | some y :: r, c, 0, x, h => by simp [assign] at h; simp [h]
+  | none :: r, c, i + 1, x, h => by
+    have := wat_assign_getElem r (c + 1) i x (by simpa [assign] using h)
+    simpa [Nat.add_assoc, Nat.add_comm 1 i] using this
+  | some y :: r, c, i + 1, x, h => by
+    have := wat_assign_getElem r (c + 1) i x (by simpa [assign] using h)
+    simpa [Nat.add_assoc, Nat.add_comm 1 i] using this
+
+/-- when the parser accepts the definitions, a reference by id resolves to the definition's index -/
+theorem wat_resolve_index (names : List (Option Id)) (ids : List Id) (h : parse names = some ids)
+    (i : Nat) (hi : i < ids.length) : resolve ids ids[i] = some i := by
+  simp only [parse] at h
+  split at h
+  · rename_i hn
+    simp only [Option.some.injEq] at h
+    subst h
+    simp [resolve, List.Nodup.idxOf_getElem hn]
+  · simp at h
+
+/-- the `$0` convention is sound: if no user-written id has the form `$<decimal>`, a definition whose
+    id "is zero" (so that the text writer omits `(table …)` / `(memory …)`) has index 0 -/
+theorem wat_is_zero_sound (names : List (Option Id)) (hu : ∀ n, some (Id.num n) ∉ names)
+    (i : Nat) (x : Id) (hx : (assign 0 names)[i]? = some x) (hz : isZero x = true) : i = 0 := by
+  rcases wat_assign_getElem names 0 i x hx with h | ⟨_, h⟩
+  · cases x with
+    | user k => simp [isZero] at hz
+    | num n => exact absurd (List.mem_of_getElem? h) (hu n)
+  · subst h
+    cases i with
+    | zero => rfl
+    | succ j => simp [isZero] at hz
+
+/-- negation witness for the lazily advancing counter (round-3 seeded change): a named definition
+    followed by an anonymous one gives the anonymous one the id `$0` at index 1 -/
+example : (assignLazy 0 [some (.user 7), none])[1]? = some (.num 0) ∧ isZero (.num 0) = true := by decide
+example : (assign 0 [some (.user 7), none])[1]? = some (.num 1) := by decide
+
+end WatIds
 
 end Props.C21
